@@ -158,6 +158,42 @@ theorem transfer_depend_exact (ro : List Str) (env : List (Str × Val)) (hok : E
   refine ⟨text, _, h1, ?_, h3⟩
   simp only [daemonReceiveDepend, framing_depend_correct cmd hc, h2]
 
+/-! ## one mapping object handed over many times (`ebd.py` passes `self.env` to `run_phase` for every phase) -/
+
+/-- **handover_leaves_callers_mapping** — `_generate_env_str` works on its own copy (`env_dict = dict(env_dict)`): after
+the call every object that existed before it — in particular the caller's mapping at `a`, marker entry included — has
+exactly the entries it had, and the text is the one `genEnvStr` gives for those entries. -/
+theorem handover_leaves_callers_mapping (ro : List Str) (h : Heap) (a : Nat) :
+    (genEnvStrCall true ro h a).1 = genEnvStr ro (h.get a) ∧
+    ∀ b, b < h.length → (genEnvStrCall true ro h a).2.get b = h.get b :=
+  ⟨(genEnvStrCall_copy ro h a).1, (genEnvStrCall_copy ro h a).2.2⟩
+
+/-- **every_handover_of_a_build_arrives** — however many times the same mapping object is handed over, *every* one of
+the texts sent (the first, and the k-th after k-1 earlier hand-overs) evaluates in a daemon that does not already export
+the names to exactly the variables the mapping asks for, exported unless marked: the result of hand-over k does not
+depend on the hand-overs before it. -/
+theorem every_handover_of_a_build_arrives (ro : List Str) (h : Heap) (a : Nat) (ha : a < h.length)
+    (hok : EnvOk (h.get a)) (n : Nat) (t : Except Err Str) (ht : t ∈ handovers true ro n h a)
+    (st0 : Store) (hfresh : Fresh ro (h.get a) st0) :
+    ∃ text asg, t = .ok text ∧ evalScript (utf8 text) = some asg ∧ Arrives ro (h.get a) st0 (st0.run asg) := by
+  rw [handovers_copy ro n h a ha] at ht
+  obtain ⟨text, asg, h1, h2, h3⟩ := env_arrives_exactly ro (h.get a) hok st0 hfresh
+  exact ⟨text, asg, (List.eq_of_mem_replicate ht).trans h1, h2, h3⟩
+
+example : (0 : Nat) < [sampleEnv].length ∧ EnvOk (Heap.get [sampleEnv] 0) ∧
+    (handovers true ["UID".toList] 3 [sampleEnv] 0).length = 3 :=
+  ⟨by decide, sampleEnv_ok, by simp [handovers]⟩
+
+/-- the copy is needed: without `env_dict = dict(env_dict)` the pop removes the marker from the caller's own object; the
+first hand-over of `{VT_a: "abc", PKGCORE_NONEXPORTED_VARS: "VT_a"}` is right, the second sends `export VT_a=abc`, which
+bash evaluates to an *exported* `VT_a` although the mapping the caller built marks it non-exported -/
+theorem handover_nocopy_counterexample :
+    let env : Env := [("VT_a".toList, .scalar "abc".toList), (marker, .scalar "VT_a".toList)]
+    (handovers false [] 2 [env] 0).map Except.toOption = [some "VT_a=abc".toList, some "export VT_a=abc".toList] ∧
+    (handovers true [] 2 [env] 0).map Except.toOption = [some "VT_a=abc".toList, some "VT_a=abc".toList] ∧
+    evalScript (utf8 "export VT_a=abc".toList) = some [⟨"VT_a".toList, .scalar "abc".toList, true⟩] ∧
+    wanted [] env "VT_a".toList = some ⟨.scalar "abc".toList, false⟩ := by decide
+
 /-! ## what was wrong before the `fix:` commits (witnesses, on the same bash model) -/
 
 /-- pre-fix `$'…'` form: `it's \n` (backslash, n) is read back with a newline -/
